@@ -502,7 +502,7 @@ pub fn run_c16(cx: &Cx) -> PropResult {
     let mut r = PropResult::new(
         acc,
         "fault_enumeration",
-        "cases = (content: empty / random (incompressible) / one byte repeated / short period / text-like / concatenations, 0 .. 256 KiB (thorough 8 MiB) incl. the lengths 63/64/127/128/16383/16384/65535/65536; compression level 0-9; suffix; fault). Oracles: Vec<u8>, BytesMut and SerializationContext produce the same frame; frame == varint(len d) ++ varint(len z) ++ z with z inflating to d under an independent flate2 decoder; SliceInput, OwnedInput and DeserializationContext read d back and leave exactly the suffix; faults: every truncation point (exhaustive for frames <= 2 KiB, 24 sampled points above) must be Err on all three sources; 1-2 bit flips anywhere and rewrites of either header varint to 0, 1, v+-1, 2v, v/2, 65536, 2^20, 2^31, 2^32-1 must give Ok or Err without panic and without a single allocation request above max(64 KiB, 2 x bytes an independent streaming inflate of the same payload produces + 4 KiB); a request above 3 GiB traps in the allocator and is reported by the supervisor; the result of reading a damaged frame must not depend on the content of fresh heap memory (allocator pre-fill 0x53 / 0xAC). Non-trivial = content >= 64 bytes or a fault injected.",
+        "cases = (content: empty / random (incompressible) / one byte repeated / short period / text-like / concatenations, 0 .. 256 KiB (thorough 8 MiB) incl. the lengths 63/64/127/128/16383/16384/65535/65536; compression level 0-9; suffix; fault). Oracles: Vec<u8>, BytesMut and SerializationContext produce the same frame; frame == varint(len d) ++ varint(len z) ++ z with z inflating to d under an independent flate2 decoder; SliceInput, OwnedInput and DeserializationContext read d back and leave exactly the suffix; faults: every truncation point (exhaustive for frames <= 2 KiB, 24 sampled points above) must be Err on all three sources; 1-2 bit flips anywhere and rewrites of either header varint to 0, 1, v+-1, 2v, v/2, 65536, 2^20, 2^31, 2^32-1 must give Ok or Err without panic and without a single allocation request above max(64 KiB, 2 x bytes an independent streaming inflate of the same payload produces + 4 KiB); a request above 3 GiB traps in the allocator and is reported by the supervisor; the result of reading a damaged frame must not depend on the content of fresh heap memory (allocator pre-fill 0x53 / 0xAC). Embedded in records: frames whose compressed-length header claims 1, 2 or 5 bytes more than their chunk holds (last chunk / a chunk follows) must give Err, never the neighbour's bytes and no panic. Non-trivial = content >= 64 bytes or a fault injected.",
     );
     r.assumptions = vec!["flate2 is used directly (not through desert) as the independent inflate".into()];
     r
